@@ -227,6 +227,9 @@ func TestDomainLengths(t *testing.T) {
 						p.SrvPlan, p.CliPlan = []int{2, 3, 5}, []int{3, 2}
 					}
 					p.InitPayload, p.C2S, p.S2C = n%5, []int{3}, []int{5}
+					if proto == "socks5" && peer == "raw" && p.InitPayload > 0 {
+						p.EarlyData = 1 + n%2
+					}
 					o, v := runPlan(t, p)
 					if failOrKnown(t, recAddr, v) {
 						continue
